@@ -460,7 +460,9 @@ def run(ck):
                "tree evaluated by pint, by the model in Coq (both leaf assignments), and with every leaf re-expressed in a "
                "random compatible unit (prefix, other unit of the dimension, extra dimensionless factor: radian percent count "
                "ppm ... — the list is in the evidence); operands snapshotted around every application; ndarray (object dtype, exact) targets for the "
-               "in-place twins; ==, <, <=, >, >=; float / Decimal / int magnitudes with tolerance (labelled tests); malformed "
+               "in-place twins (incl. dimensionless targets not in root units with bare operands); ==, <, <=, >, >=; every bundled context "
+               "ACTIVE (dimension mismatch across the dimensions it relates must still raise; same-dimension results unchanged); "
+               "float / Decimal / int magnitudes with tolerance (labelled tests); malformed "
                "stream: mixed dimensions, bare numbers on dimensioned quantities, zero divisors, dimensioned exponents. "
                "non-trivial = distinct (tree shape with operators, forms and leaf units) whose re-expression changes at least one unit")
     ck.assumptions += [
@@ -768,7 +770,7 @@ def run(ck):
         return max(1, int((thor if thorough else quick) * scale))
     ck.extra["scale"] = scale
     n_trees = N(4000, 50000)
-    n_tree_model = N(800, 7000)
+    n_tree_model = N(700, 7000)
     maxdepth = 6 if thorough else 4
     n_model = 0
     skipped = 0
@@ -895,9 +897,22 @@ def run(ck):
     def arr(ms):
         return np.array([F(m) for m in ms], dtype=object)
 
+    def dimless_nonroot():
+        """a dimensionless container that is not the root one: percent, ppm, m/km, ..."""
+        r = rng.random()
+        if r < 0.4:
+            return {rng.choice(DIMLESS): F(rng.choice([1, 1, 2, -1]))}
+        u = rng.choice(units)
+        v = alt_name(u)
+        if v == u and u in W.prefixable:
+            v = rng.choice(PREFIXES) + u
+        d = {u: F(1)}
+        d[v] = d.get(v, F(0)) - 1
+        return {k: e for k, e in d.items() if e != 0}
+
     nd_n = N(350, 2000)
     for i in range(nd_n):
-        d = runits()
+        d = runits() if rng.random() < 0.75 else dimless_nonroot()
         n = rng.randint(1, 3)
         am = [rmag() for _ in range(n)]
         op = rng.choice(["add", "sub", "mul", "div", "floordiv", "mod", "pow"])
@@ -914,7 +929,7 @@ def run(ck):
             if not is_nan(ev_) and F(ev_).denominator != 1:
                 continue                                    # magnitude would leave the rationals
             bm = None
-        elif w < 0.7:
+        elif w < (0.7 if W.dim(d) else 0.35):
             bs = ("Q", None, alt_units(d) if rng.random() < 0.8 else runits())
             bm = [rmag() for _ in range(n)] if rng.random() < 0.6 else [rmag()]
             if any(x == 0 for x in bm) and not all(x == 0 for x in bm) and op in ("div", "floordiv", "mod"):
@@ -1079,6 +1094,77 @@ def run(ck):
             add_case(f"KPowUnits {coq_uc(d)} {coq_q(e)} {coq_uc({k: F(v) for k, v in pu.items()})}", {"units**": [str(d), str(e)]})
 
     lap('rules')
+    # ---------------- stream 5b: an ACTIVE context must not make + - < accept another dimensionality, nor change results
+    Wc = World(F)
+    Wc.setup_universe(W)
+    Wc.exact_ureg = W.ureg
+    ctx_n = N(6, 30)
+    seen_ctx = set()
+    for cname, ctx in list(Wc.ureg._contexts.items()):
+        if ctx.name in seen_ctx:
+            continue
+        seen_ctx.add(ctx.name)
+        kw = {}
+        if ctx.name == "chemistry":
+            kw = {"mw": Wc.Q(F(18), "gram/mole")}
+        rel = []
+        for (src, dst) in ctx.funcs:
+            ks, kd = frozenset(regk.ucd(src).items()), frozenset(regk.ucd(dst).items())
+            if ks in W.classes and kd in W.classes and ks != kd:
+                rel.append((ks, kd))
+        try:
+            cm = Wc.ureg.context(ctx.name, **kw)
+            cm.__enter__()
+        except Exception:
+            continue
+        try:
+            for (ks, kd) in rel:
+                for _ in range(ctx_n):
+                    a = ("Q", rmag() or F(1), {rng.choice(W.classes[ks]): F(1)})
+                    b = ("Q", rmag() or F(1), {rng.choice(W.classes[kd]): F(1)})
+                    evc = Evaluator(Wc, None)
+                    for op in ("add", "sub"):
+                        for form in ("plain", "refl", "inpl"):
+                            o = evc.apply_bin(op, form, Wc.mk(a), Wc.mk(b))
+                            if o != ("err", "XDim"):
+                                fail(f"dimerr:{op}:{form}:context-active",
+                                     f"with context '{ctx.name}' active, {show_spec(a)} {op} {show_spec(b)} (different dimensionality) gave {describe(o)} instead of DimensionalityError",
+                                     {"kind": "context", "context": ctx.name, "op": op, "form": form, "l": show_spec(a), "r": show_spec(b)})
+                        A = Wc.Q(arr([a[1], a[1] + 1]), regk.mkuc(Wc.ureg, a[2]))
+                        o = evc.apply_bin(op, "inpl", A, Wc.mk(b))
+                        if o != ("err", "XDim"):
+                            fail(f"dimerr:{op}:inpl-ndarray:context-active",
+                                 f"with context '{ctx.name}' active, ndarray {show_spec(a)} {op}= {show_spec(b)} gave {describe(o)} instead of DimensionalityError",
+                                 {"kind": "context", "context": ctx.name, "op": op, "l": show_spec(a), "r": show_spec(b)})
+                    for name in CMPS:
+                        try:
+                            CMPS[name](Wc.mk(a), Wc.mk(b))
+                            o = ("ok", None)
+                        except Exception as e:      # noqa: BLE001
+                            o = ("err", errclass(e))
+                        if o != ("err", "XDim"):
+                            fail(f"dimerr:{name}:context-active", f"with context '{ctx.name}' active, {show_spec(a)} {name} {show_spec(b)} did not raise DimensionalityError",
+                                 {"kind": "context", "context": ctx.name, "op": name, "l": show_spec(a), "r": show_spec(b)})
+                    ck.case(key=("ctx", ctx.name, tuple(a[2]), tuple(b[2])))
+                    ck.count("context-active:dimension-mismatch")
+            # same dimension: the active context changes nothing (exact)
+            for _ in range(ctx_n * 3):
+                d = runits()
+                a, b = ("Q", rmag(), d), ("Q", rmag(), alt_units(d))
+                for op in ("add", "sub", "mod", "floordiv"):
+                    try:
+                        o_in = Evaluator(Wc, None).apply_bin(op, "plain", Wc.mk(a), Wc.mk(b))
+                        o_out = Evaluator(W, None).apply_bin(op, "plain", W.mk(a), W.mk(b))
+                    except Skip:
+                        continue
+                    same_ = o_in[0] == o_out[0] and (o_in[1] == o_out[1] if o_in[0] == "err" else snap_eq(snap(o_in[1]), snap(o_out[1])))
+                    if not same_:
+                        fail(f"context-independent:{op}", f"with context '{ctx.name}' active, {show_spec(a)} {op} {show_spec(b)} = {describe(o_in)}, without: {describe(o_out)}",
+                             {"kind": "context", "context": ctx.name, "op": op, "l": show_spec(a), "r": show_spec(b)})
+                ck.count("context-active:same-dimension")
+        finally:
+            cm.__exit__(None, None, None)
+    lap('contexts')
     # ---------------- known-defect probes (exact inputs; the keys are matched by known_findings/C03.json)
     # F14: autoconvert_offset_to_baseunit, ndarray a *= b with b in an offset unit
     Wa = World(F, autoconvert_offset_to_baseunit=True)
